@@ -58,8 +58,9 @@ RULE = (
     "transport fault fired; distinct = distinct sha256 of (schema, stored "
     "texts, overrides, entry).")
 ASSUMPTIONS = [
-    "schemas use only standard datatypes and key types (all reject with "
-    "ValueError); no application callbacks",
+    "schemas use standard datatypes and key types and, in a third of the "
+    "runs, application datatypes that reject with ValueError (in several "
+    "shapes); no datatype raises anything else",
     "text is str (valid UTF-8); bytes that do not decode are outside the "
     "statement",
     "read failures of a resource that could be opened (I/O error, reset, "
@@ -234,8 +235,14 @@ def _corrupt_override(rng, item):
 def generate(rng, tier, index):
     if index < N_GRAPH:
         return graph_plan(index)
-    ir, lines = G.gen_pair(rng, {"handlers": False, "callbacks": False,
-                                 "std_only": True, "std_keytypes": True},
+    # a third of the schemas also use application datatypes / key types
+    # (zcsim.simdt): they reject with ValueError in every shape the language
+    # allows (no message, several arguments, a subclass, raised "from"
+    # another exception, a DataConversionError of their own)
+    app = rng.random() < 0.3
+    ir, lines = G.gen_pair(rng, {"handlers": False, "callbacks": app,
+                                 "std_only": not app,
+                                 "std_keytypes": not app},
                            {"full": rng.choice([0.5, 0.8, 1.0])})
     xml = G.render_schema(ir)
     uni = layout.cut(rng, lines, ncuts=rng.choice([0, 1, 1, 2]),
